@@ -49,6 +49,13 @@ theorem resource_object_order_independent_partial (c : String) (env : Env) (pnam
   obtain ⟨a', b', ha, hb, hp, hn'⟩ := resolve_object_order_independent c env h hn
   exact ⟨a', b', ha, hb, setName_object_order_independent pname key hp hn'⟩
 
+/-- **the typed secret / config does not depend on the order of the keys of the raw object handed to the decode**:
+`secretConfigDecoderHook` maps permuted objects (distinct keys) to permuted objects, and the struct decode reads look-ups
+only (plus a test over all keys) -/
+theorem decode_object_order_independent {a b : KVs} (h : a.Perm b) (hn : KeysNodup a) :
+    decodeSecret (.map a) = decodeSecret (.map b) ∧ decodeConfig (.map a) = decodeConfig (.map b) :=
+  ⟨decodeSecret_perm h hn, decodeConfig_perm h hn⟩
+
 /-- non-vacuity: two orders of the same object -/
 example : KeysNodup [("environment", Val.str "E"), ("x-a", .int 1), ("labels", .map [])] ∧
     [("environment", Val.str "E"), ("x-a", .int 1), ("labels", .map [])].Perm [("labels", .map []), ("environment", .str "E"), ("x-a", .int 1)] := by
